@@ -73,6 +73,11 @@ var target int64
 var names []string
 var record int32
 
+// named target: die at the occ-th hit of the point called tname (counted from ArmNamed). Counting per point
+// name keeps the target stable when background goroutines pass other points in between.
+var tname atomic.Value
+var tocc, thits int64
+
 func init() {
 	if v, err := strconv.ParseInt(os.Getenv("VERIF_CRASH_AT"), 10, 64); err == nil {
 		target = v
@@ -90,10 +95,42 @@ func Point(name string) {
 		_ = syscall.Kill(os.Getpid(), syscall.SIGKILL)
 		select {}
 	}
+	if tn, _ := tname.Load().(string); tn != "" && tn == name {
+		if atomic.AddInt64(&thits, 1) == atomic.LoadInt64(&tocc) {
+			_ = syscall.Kill(os.Getpid(), syscall.SIGKILL)
+			select {}
+		}
+	}
+}
+
+// ArmNamed resets the counters and sets a named crash target: the occ-th hit of point name.
+func ArmNamed(name string, occ int64) {
+	atomic.StoreInt64(&hits, 0)
+	atomic.StoreInt64(&target, 0)
+	atomic.StoreInt64(&thits, 0)
+	atomic.StoreInt64(&tocc, occ)
+	tname.Store(name)
+}
+
+// WriteFile stands in for os.WriteFile inside instrumented functions: the same truncate-then-write, with a
+// crash point between the truncating open and the write and one after the write (a process can die there).
+func WriteFile(name string, data []byte, perm os.FileMode) error {
+	f, err := os.OpenFile(name, os.O_WRONLY|os.O_CREATE|os.O_TRUNC, perm)
+	if err != nil {
+		return err
+	}
+	Point("os.WriteFile:truncated")
+	_, err = f.Write(data)
+	Point("os.WriteFile:written")
+	if err1 := f.Close(); err1 != nil && err == nil {
+		err = err1
+	}
+	return err
 }
 
 // Arm resets the hit counter and sets the crash target (0 = never crash).
 func Arm(at int64) {
+	tname.Store("")
 	atomic.StoreInt64(&hits, 0)
 	atomic.StoreInt64(&target, at)
 }
@@ -243,6 +280,7 @@ func instrument(src, dst string, funcs []string) (int, []string, error) {
 	}
 	found := map[string]bool{}
 	count := 0
+	rewrote := false
 	for _, d := range f.Decls {
 		fd, ok := d.(*ast.FuncDecl)
 		if !ok || fd.Body == nil {
@@ -255,6 +293,20 @@ func instrument(src, dst string, funcs []string) (int, []string, error) {
 		n := 0
 		instrumentBlock(fd.Body, fd.Name.Name, &n)
 		count += n
+		if pointPkg == "verifcrash" {
+			// a whole-file rewrite is not atomic: model the window between truncation and write
+			ast.Inspect(fd.Body, func(nd ast.Node) bool {
+				if ce, ok := nd.(*ast.CallExpr); ok {
+					if se, ok := ce.Fun.(*ast.SelectorExpr); ok && se.Sel.Name == "WriteFile" {
+						if id, ok := se.X.(*ast.Ident); ok && id.Name == "os" {
+							id.Name = pointPkg
+							rewrote = true
+						}
+					}
+				}
+				return true
+			})
+		}
 	}
 	var missing []string
 	for fn := range want {
@@ -264,6 +316,15 @@ func instrument(src, dst string, funcs []string) (int, []string, error) {
 	}
 	if count > 0 {
 		addImport(f, "github.com/siglens/siglens/pkg/"+pointPkg)
+	}
+	if rewrote {
+		// keep the os import used even if the rewritten call was its only use
+		for _, im := range f.Imports {
+			if strings.Trim(im.Path.Value, `"`) == "os" && im.Name == nil {
+				f.Decls = append(f.Decls, &ast.GenDecl{Tok: token.VAR, Specs: []ast.Spec{&ast.ValueSpec{
+					Names: []*ast.Ident{ast.NewIdent("_")}, Values: []ast.Expr{&ast.SelectorExpr{X: ast.NewIdent("os"), Sel: ast.NewIdent("Getpid")}}}}})
+			}
+		}
 	}
 	var buf bytes.Buffer
 	// comments are dropped on purpose: positions of inserted nodes would confuse the printer
